@@ -14,6 +14,7 @@ mod r_c12;
 mod r_c14;
 mod r_c16;
 mod r_c17;
+mod r_c19;
 
 use shared::src_trait::VecSrc;
 
@@ -79,6 +80,12 @@ fn main() {
     let harness = args[1].clone();
     if harness == "c11_batch" {
         r_c11::batch(&args[2]);
+        return;
+    }
+    if harness.starts_with("c19_") {
+        let vals: Vec<u8> = args[2].split(',').filter_map(|x| x.trim().parse::<u64>().ok()).map(|x| x as u8).collect();
+        let out = r_c19::run(&harness, &vals);
+        print(&out, &vals);
         return;
     }
     if harness.starts_with("c11_ft_") {
